@@ -178,6 +178,31 @@ func (mc *c02Machine) actions(rt *rapid.T) map[string]func(*rapid.T) {
 			mc.flags["same-objects"] = true
 			mc.step(rt, "same-objects", mc.last)
 		},
+		"runSameObjectsNewContents": func(rt *rapid.T) {
+			if mc.last == nil {
+				rt.Skip("no previous call")
+			}
+			// the caller owns its tensors: it refills the very objects of the previous call with
+			// new values and passes them again
+			for _, k := range sortedKeys(mc.last) {
+				t := mc.last[k]
+				isOutput := false
+				for _, h := range mc.held {
+					if h.t == t {
+						isOutput = true // an output object that was fed back is not the caller's to refill
+					}
+				}
+				if t == nil || isOutput || t.Dtype() != tensor.Float32 {
+					continue
+				}
+				fresh := mkT(t.Shape(), smallF32s(rt, prod(t.Shape()), 2, "refill"))
+				if err := tensor.Copy(t, fresh); err != nil {
+					rt.Fatalf("harness: cannot refill a caller tensor in place: %v", err)
+				}
+			}
+			mc.flags["same-objects-new-contents"] = true
+			mc.step(rt, "same-objects-new-contents", mc.last)
+		},
 		"runFeedback": func(rt *rapid.T) {
 			if mc.lastOuts == nil {
 				rt.Skip("no previous outputs")
@@ -259,7 +284,7 @@ func (mc *c02Machine) nontrivial() bool {
 	if len(mc.history) < 2 || !mc.aliasable {
 		return false
 	}
-	return mc.flags["same-objects"] || mc.flags["feedback"] || mc.flags["batch-change"] || mc.flags["fail-then-good"]
+	return mc.flags["same-objects"] || mc.flags["same-objects-new-contents"] || mc.flags["feedback"] || mc.flags["batch-change"] || mc.flags["fail-then-good"]
 }
 
 func (mc *c02Machine) record(sub string) {
@@ -298,7 +323,7 @@ func ggAliasable(gg *ggraph) bool {
 
 func TestC02(t *testing.T) {
 	ev.Begin("C02",
-		"rapid state machine (t.Repeat) over one loaded Model. Models: generated DAGs of 1..6 nodes biased to the aliasing routes (a weight or caller tensor reaching Conv's bias, the initial state of RNN/GRU/LSTM, the operand of ArgMax/ReduceMax/ReduceMin, directly or through single-input Concat / same-shape Expand / Constant), half of them per-sample graphs whose batch size may change between calls; and the sample models gru, mlp, scaler, ndm. Actions: runFresh, runSameObjects (the very tensor objects of the previous call), runFeedback (an output object of the previous Run passed back in where shapes allow, e.g. hidden_out -> init_hidden), runOtherBatch, runFailing (missing input / wrong rank: refused by validation), runFailingInsideNode (inputs that satisfy the signature but are inconsistent with each other or the weights, so the call fails inside a node after earlier nodes ran). "+
+		"rapid state machine (t.Repeat) over one loaded Model. Models: generated DAGs of 1..6 nodes biased to the aliasing routes (a weight or caller tensor reaching Conv's bias, the initial state of RNN/GRU/LSTM, the operand of ArgMax/ReduceMax/ReduceMin, directly or through single-input Concat / same-shape Expand / Constant), half of them per-sample graphs whose batch size may change between calls; and the sample models gru, mlp, scaler, ndm. Actions: runFresh, runSameObjects (the very tensor objects of the previous call), runSameObjectsNewContents (those objects refilled in place with new values), runFeedback (an output object of the previous Run passed back in where shapes allow, e.g. hidden_out -> init_hidden), runOtherBatch, runFailing (missing input / wrong rank: refused by validation), runFailingInsideNode (inputs that satisfy the signature but are inconsistent with each other or the weights, so the call fails inside a node after earlier nodes ran). "+
 			"Non-trivial = history of >= 2 calls containing same-object reuse, feedback, a batch change or a failing call followed by a good one, on a model with an alias route. Distinct = (model, action sequence).",
 		"invariants after every step: deep snapshots (shape, strides, dtype, raw backing bits) of caller tensors and of the weights (hook VerifParameters) unchanged; outputs bit-identical to a freshly loaded model run on deep copies of the pre-call inputs, including 'both fail'; outputs returned earlier unchanged")
 	defer reportKnownFindings("C02")
